@@ -1205,4 +1205,290 @@ theorem now_mono_spin (n : Nat) (w : W) (b : Nat) (h : b ≤ w.now) : b ≤ (spi
     show b ≤ max w.now c.time
     omega
 
+/-! ### the phases before the loop -/
+
+theorem runBody_inv (P : W → Prop) (hs : ∀ (w : W) t i a, P w → P (schedule t (.user i a) w))
+    (hn : ∀ (w : W) i a, P w → P (exec i a (logEvent (.user i) w))) :
+    ∀ (i : Nat) (body : List Op) (w : W), P w → P (runBody i body w)
+  | _, [], _, h => h
+  | i, .later d a :: rest, w, h => runBody_inv P hs hn (i + 1) rest _ (hs w _ i a h)
+  | i, .now a :: rest, w, h => runBody_inv P hs hn (i + 1) rest _ (hn w i a h)
+
+theorem finishF_inv (P : W → Prop) (hd : ∀ (w : W) r, isOwnResult r = true → P w → P (deliver r w))
+    (ha : ∀ w : W, P w → P { w with u := { w.u with attached := true } }) (t : Term) (w : W)
+    (hown : ∀ r, w.u.dres = some r → isOwnResult r = true) (h : P w) : P (finishF t w) := by
+  cases t with
+  | ret v => exact hd w (.value v) rfl h
+  | raise e => exact hd w (.raised e) rfl h
+  | deferred =>
+    simp only [finishF]
+    split
+    · rename_i r hdr; exact hd _ r (hown r hdr) (ha w h)
+    · exact ha w h
+
+def opAct : Op → Act
+  | .later _ a => a
+  | .now a => a
+
+def isLater : Op → Bool
+  | .later _ _ => true
+  | .now _ => false
+
+theorem book_schedPre {sc : Scen} : ∀ (i : Nat) (rest : List (Nat × Act)) (w : W),
+    (∀ j (h : j < rest.length), actOf sc (i + j) = some rest[j].2 ∧ i + j ∈ delayedLabels sc) →
+    Book sc i w → Book sc (i + rest.length) (schedPre i rest w)
+  | _, [], _, _, h => h
+  | i, (d, a) :: rest, w, hl, h => by
+      have h0 := hl 0 (by simp)
+      simp only [Nat.add_zero, List.getElem_cons_zero] at h0
+      have := book_schedPre (i + 1) rest (schedule (w.now + d) (.user i a) w)
+        (fun j hj => by
+          have := hl (j + 1) (by simp; omega)
+          simpa [Nat.add_assoc, Nat.add_comm 1 j] using this)
+        (book_schedule_user _ a h h0.1 h0.2)
+      simpa [schedPre, Nat.add_assoc, Nat.add_comm 1 rest.length] using this
+
+theorem book_runBody {sc : Scen} : ∀ (i : Nat) (rest : List Op) (w : W),
+    (∀ j (h : j < rest.length), actOf sc (i + j) = some (opAct rest[j]) ∧ (isLater rest[j] = true → i + j ∈ delayedLabels sc)) →
+    Book sc i w → Book sc (i + rest.length) (runBody i rest w)
+  | _, [], _, _, h => h
+  | i, .later d a :: rest, w, hl, h => by
+      have h0 := hl 0 (by simp)
+      simp only [Nat.add_zero, List.getElem_cons_zero, opAct, isLater] at h0
+      have := book_runBody (i + 1) rest (schedule (w.now + d) (.user i a) w)
+        (fun j hj => by
+          have := hl (j + 1) (by simp; omega)
+          simpa [Nat.add_assoc, Nat.add_comm 1 j] using this)
+        (book_schedule_user _ a h h0.1 (h0.2 trivial))
+      simpa [runBody, Nat.add_assoc, Nat.add_comm 1 rest.length] using this
+  | i, .now a :: rest, w, hl, h => by
+      have h0 := hl 0 (by simp)
+      simp only [Nat.add_zero, List.getElem_cons_zero, opAct] at h0
+      have := book_runBody (i + 1) rest (exec i a (logEvent (.user i) w))
+        (fun j hj => by
+          have := hl (j + 1) (by simp; omega)
+          simpa [Nat.add_assoc, Nat.add_comm 1 j] using this)
+        (book_now a h h0.1)
+      simpa [runBody, Nat.add_assoc, Nat.add_comm 1 rest.length] using this
+
+theorem mem_laterLabels : ∀ (i : Nat) (body : List Op) (j : Nat) (h : j < body.length),
+    isLater body[j] = true → i + j ∈ laterLabels i body
+  | _, [], _, h, _ => by simp at h
+  | i, .later d a :: rest, 0, _, _ => by simp [laterLabels]
+  | i, .later d a :: rest, j + 1, h, hl => by
+      have := mem_laterLabels (i + 1) rest j (by simpa using h) (by simpa using hl)
+      simp only [laterLabels, List.mem_cons]
+      right
+      simpa [Nat.add_assoc, Nat.add_comm 1 j] using this
+  | i, .now a :: rest, 0, _, hl => by simp [isLater] at hl
+  | i, .now a :: rest, j + 1, h, hl => by
+      have := mem_laterLabels (i + 1) rest j (by simpa using h) (by simpa using hl)
+      simp only [laterLabels]
+      simpa [Nat.add_assoc, Nat.add_comm 1 j] using this
+
+theorem laterLabels_lt : ∀ (i : Nat) (body : List Op), ∀ l ∈ laterLabels i body, l < i + body.length
+  | _, [], l, h => by simp [laterLabels] at h
+  | i, .later d a :: rest, l, h => by
+      simp only [laterLabels, List.mem_cons] at h
+      rcases h with rfl | h
+      · simp
+      · have := laterLabels_lt (i + 1) rest l h
+        simp; omega
+  | i, .now a :: rest, l, h => by
+      simp only [laterLabels] at h
+      have := laterLabels_lt (i + 1) rest l h
+      simp; omega
+
+theorem delayedLabels_lt (sc : Scen) : ∀ l ∈ delayedLabels sc, l < sc.pre.length + sc.body.length := by
+  intro l h
+  simp only [delayedLabels, List.mem_append, List.mem_range] at h
+  rcases h with h | h
+  · omega
+  · exact laterLabels_lt _ _ l h
+
+theorem pre_labels (sc : Scen) : ∀ j (h : j < sc.pre.length),
+    actOf sc (0 + j) = some sc.pre[j].2 ∧ 0 + j ∈ delayedLabels sc := by
+  intro j h
+  simp only [Nat.zero_add]
+  refine ⟨by simp [actOf, h], ?_⟩
+  simp only [delayedLabels, List.mem_append, List.mem_range]
+  exact Or.inl h
+
+theorem body_labels (sc : Scen) : ∀ j (h : j < sc.body.length),
+    actOf sc (sc.pre.length + j) = some (opAct sc.body[j]) ∧
+    (isLater sc.body[j] = true → sc.pre.length + j ∈ delayedLabels sc) := by
+  intro j h
+  constructor
+  · have : ¬ (sc.pre.length + j < sc.pre.length) := by omega
+    simp only [actOf, this, if_false, Nat.add_sub_cancel_left, List.getElem?_eq_getElem h]
+    cases sc.body[j] <;> rfl
+  · intro hl
+    simp only [delayedLabels, List.mem_append]
+    exact Or.inr (mem_laterLabels _ _ j h hl)
+
+/-! ## one run, assembled -/
+
+/-- between runs: nothing scheduled, no selectables, reactor not running, `reactor.stop` genuine -/
+structure Idle (w : W) : Prop where
+  calls : w.calls = []
+  sels : w.sels = []
+  running : w.running = false
+  stopPatched : w.stopPatched = false
+
+def start (w0 : W) : W := { w0 with t0 := w0.now, events := [], u := {} }
+
+/-- the state in which `spinner.run` is called -/
+def afterPre (sc : Scen) (w0 : W) : W := schedPre 0 sc.pre (start w0)
+
+theorem afterPre_eq (sc : Scen) (w0 : W) (h : Idle w0) :
+    afterPre sc w0 = { start w0 with calls := insAll (preCalls w0.now 0 sc.pre) [] } := by
+  rw [afterPre, schedPre_eq]
+  simp [start, h.calls]
+
+theorem preCalls_user (b : Nat) : ∀ (i : Nat) (pre : List (Nat × Act)), ∀ c ∈ preCalls b i pre, c.act.isTimeout = false
+  | _, [], c, h => by cases h
+  | i, (d, a) :: rest, c, h => by
+      rcases List.mem_cons.mp h with rfl | h
+      · rfl
+      · exact preCalls_user b (i + 1) rest c h
+
+theorem count_timeout_zero (q : List (DCall (QAct Act))) (h : ∀ c ∈ q, c.act.isTimeout = false) :
+    (q.map (·.act.lbl)).count .timeout = 0 := by
+  induction q with
+  | nil => rfl
+  | cons c rest ih =>
+    rw [count_lbl_cons, ih (fun x hx => h x (List.mem_cons_of_mem _ hx))]
+    have := lbl_of_not_isTimeout (h c List.mem_cons_self)
+    simp [this]
+
+theorem book_entry {sc : Scen} {k : Nat} {w : W} (h : Book sc k w) : Book sc k (entry sc w) := by
+  refine ⟨?_, ?_, h.sels, h.reent, h.reent_all⟩
+  · intro l
+    have := h.cnt l
+    simp only [qlbls, elbls, entry, schedule_calls, schedule_events] at this ⊢
+    rw [insert_count_map, count_lbl_cons]
+    have hl : (⟨w.now + sc.timeout, QAct.timeout⟩ : DCall (QAct Act)).act.lbl = Lbl.timeout := rfl
+    simp only [hl]
+    simpa using this
+  · intro c hc l a hca
+    simp only [entry, schedule_calls] at hc
+    rcases mem_insert.mp hc with rfl | hc
+    · cases hca
+    · exact h.lab c hc l a hca
+
+theorem tj_entry (sc : Scen) (w : W) (hq : ∀ c ∈ w.calls, c.act.isTimeout = false) (he : w.events = []) :
+    TJ (entry sc w) := by
+  left
+  refine ⟨rfl, rfl, rfl, ?_, ?_⟩
+  · simp only [qT, qlbls, entry, schedule_calls]
+    rw [insert_count_map, count_lbl_cons, count_timeout_zero _ hq]
+    rfl
+  · simp [eT, elbls, entry, he]
+
+theorem tj_schedule_user {w : W} (t i : Nat) (a : Act) (h : TJ w) : TJ (schedule t (.user i a) w) := by
+  refine tj_frame h rfl rfl rfl ?_ rfl
+  simp only [qT, qlbls, schedule_calls]
+  rw [insert_count_map, count_lbl_cons]
+  have hl : (⟨t, QAct.user i a⟩ : DCall (QAct Act)).act.lbl = Lbl.user i := rfl
+  simp [hl]
+
+/-- things a run never touches -/
+def Misc (j : List Junk) (n : Nat) (w : W) : Prop := w.sp.junk = j ∧ w.sigs.length = n
+
+theorem misc_exec {j : List Junk} {n : Nat} {w : W} (l : Nat) (a : Act) (h : Misc j n w) : Misc j n (exec l a w) := by
+  have hf := exec_frame l a w
+  exact ⟨by rw [hf.junk]; exact h.1, by rw [hf.sigs]; exact h.2⟩
+
+theorem misc_spin {j : List Junk} {n : Nat} (m : Nat) (w : W) (h : Misc j n w) : Misc j n (spin exec fuelD m w) := by
+  apply spin_inv exec fuelD (Misc j n) _ _ m w h
+  · intro w c rest h _ _
+    rcases c with ⟨t, q⟩
+    cases q with
+    | timeout => exact ⟨by simpa [execCall] using h.1, by simpa [execCall] using h.2⟩
+    | user l a => exact misc_exec l a (w := logEvent (.user l) { w with calls := rest }) h
+  · intro _ _ _ h _ _
+    exact h
+
+theorem syncFire_own (sc : Scen) : ∀ r, syncFire sc = some r → isOwnResult r = true :=
+  fun _ h => isOwn_findSome h
+
+/-- everything the clauses need to know about the state at the end of `reactor.run()` -/
+structure RunFacts (sc : Scen) (w0 wF : W) : Prop where
+  result : getResult wF.sp = expected sc
+  crashed : wF.crashed = true
+  book : Book sc (sc.pre.length + sc.body.length) wF
+  tj : TJ wF
+  now_le : wF.now ≤ w0.now + sc.timeout
+  now_ge : w0.now ≤ wF.now
+  junk : wF.sp.junk = w0.sp.junk
+  sigs : wF.sigs.length = w0.sigs.length
+  t0 : True
+
+theorem run_facts (sc : Scen) (w0 : W) (hidle : Idle w0) : RunFacts sc w0 (spinPhase sc (afterPre sc w0)) := by
+  have hS := afterPre_eq sc w0 hidle
+  have hnowS : (afterPre sc w0).now = w0.now := by rw [hS]; rfl
+  have hcallsS : (afterPre sc w0).calls = insAll (preCalls (afterPre sc w0).now 0 sc.pre) [] := by rw [hnowS, hS]
+  have hattS : (afterPre sc w0).u.attached = false := by rw [hS]; rfl
+  have hdresS : (afterPre sc w0).u.dres = none := by rw [hS]; rfl
+  obtain ⟨hres, hend⟩ := spinPhase_result sc (afterPre sc w0) hcallsS hattS hdresS
+  obtain ⟨hcalls, hnow, htc, hs, hf, hsp, hat, hdr, hcr⟩ := entry_body sc (afterPre sc w0) hcallsS hattS hdresS
+  have hown : ∀ r, (runBody sc.pre.length sc.body (entry sc (afterPre sc w0))).u.dres = some r → isOwnResult r = true := by
+    intro r h; rw [hdr] at h; exact syncFire_own sc r h
+  -- bookkeeping
+  have hbook0 : Book sc 0 (start w0) :=
+    ⟨fun l => by simp [qlbls, elbls, start, hidle.calls], by simp [start, hidle.calls], by simp [start, hidle.sels],
+     by simp [start], by simp [start]⟩
+  have hbookS : Book sc sc.pre.length (afterPre sc w0) := by
+    have := book_schedPre 0 sc.pre (start w0) (pre_labels sc) hbook0
+    simpa [afterPre] using this
+  have hbookD := book_runBody sc.pre.length sc.body _ (body_labels sc) (book_entry hbookS)
+  have hbookL : Book sc (sc.pre.length + sc.body.length) (loopStart sc (afterPre sc w0)) :=
+    finishF_inv (Book sc _) (fun w r _ h => book_deliver r h) (fun w h => book_of_eq h rfl rfl rfl rfl) _ _ hown hbookD
+  -- the timeout call
+  have htjE : TJ (entry sc (afterPre sc w0)) := by
+    apply tj_entry
+    · rw [hS]
+      intro c hc
+      rcases (mem_insAll c _ _).mp hc with hc | hc
+      · exact preCalls_user _ _ _ c hc
+      · cases hc
+    · rw [hS]; rfl
+  have htjD := runBody_inv TJ (fun w t i a h => tj_schedule_user t i a h) (fun w i a h => tj_exec i a (tj_log_user i h))
+    sc.pre.length sc.body _ htjE
+  have htjL : TJ (loopStart sc (afterPre sc w0)) :=
+    finishF_inv TJ (fun w r hr h => tj_deliver r hr h) (fun w h => tj_frame h rfl rfl rfl rfl rfl) _ _ hown htjD
+  -- time
+  have htiD : TInv (w0.now + sc.timeout) (runBody sc.pre.length sc.body (entry sc (afterPre sc w0))) := by
+    refine ⟨by rw [hcalls]; exact insAll_sorted _ _ (by simp [Sorted]), by rw [hnow, hnowS]; omega,
+      fun _ => ⟨htc, hsp⟩, fun _ => ?_⟩
+    refine ⟨⟨(afterPre sc w0).now + sc.timeout, .timeout⟩, ?_, rfl, by simp [hnowS]⟩
+    rw [hcalls]
+    exact (mem_insAll _ _ _).mpr (Or.inl (by simp [allCalls]))
+  have htiL : TInv (w0.now + sc.timeout) (loopStart sc (afterPre sc w0)) :=
+    finishF_inv (TInv _) (fun w r _ h => tinv_deliver r h) (fun w h => ⟨h.sorted, h.now_le, h.alive, h.pend⟩) _ _ hown htiD
+  -- untouched
+  have hmE : Misc w0.sp.junk w0.sigs.length (entry sc (afterPre sc w0)) := by rw [hS]; exact ⟨rfl, rfl⟩
+  have hmD := runBody_inv (Misc w0.sp.junk w0.sigs.length) (fun w t i a h => h) (fun w i a h => misc_exec i a (w := logEvent (.user i) w) h)
+    sc.pre.length sc.body _ hmE
+  have hmL : Misc w0.sp.junk w0.sigs.length (loopStart sc (afterPre sc w0)) :=
+    finishF_inv (Misc _ _) (fun w r _ h => ⟨by simpa using h.1, by simpa using h.2⟩) (fun w h => h) _ _ hown hmD
+  have hnowL : w0.now ≤ (loopStart sc (afterPre sc w0)).now := by
+    have : (loopStart sc (afterPre sc w0)).now = w0.now := by
+      have := finishF_inv (fun w => w.now = w0.now) (fun w r _ h => by simpa using h) (fun w h => h) sc.term _ hown
+        (by rw [hnow, hnowS])
+      exact this
+    omega
+  rw [spinPhase_eq] at hres hend ⊢
+  have hti := tinv_spin ((loopStart sc (afterPre sc w0)).calls.length + 1) _ htiL
+  have hm := misc_spin ((loopStart sc (afterPre sc w0)).calls.length + 1) _ hmL
+  refine ⟨hres, ?_, book_spin _ _ hbookL, tj_spin _ _ htjL, hti.now_le, now_mono_spin _ _ _ hnowL, hm.1, hm.2, trivial⟩
+  -- the loop ended by a crash: while not crashed the timeout call is still queued
+  rcases hend with h | h
+  · exact h
+  · cases hc : (spin exec fuelD ((loopStart sc (afterPre sc w0)).calls.length + 1) (loopStart sc (afterPre sc w0))).crashed with
+    | true => rfl
+    | false =>
+      obtain ⟨c, hc', _⟩ := hti.pend (hti.alive hc).1
+      rw [h] at hc'; cases hc'
+
 end TTV.Props.C15
